@@ -165,6 +165,24 @@ Proof.
   - reflexivity.
 Qed.
 
+(* the allocation cap of scrypt.Key on the written document: n as given, r = defaultR *)
+Lemma doc_alloc : int_ok n -> ProofsRead.doc_alloc_ok doc = scrypt_alloc_ok n defaultR.
+Proof.
+  intros In. rewrite doc_is_top. unfold Keystore.ReadTypes.doc_alloc_ok.
+  assert (Fc : obj_field "crypto" top = Some (crypto_common_members (w_crypto w') ++ [(jkey "kdfparams", kdfparams_json (w_kdfparams w'))])).
+  { unfold obj_field, top. rewrite (field_mset_same "crypto"). reflexivity. }
+  rewrite Fc. unfold w', w0, created_wallet, crypto_common_members, kdfparams_json, obj_field, int_field.
+  cbn [w_crypto w_kdfparams cc_cipher cc_ciphertext cc_iv cc_kdf cc_mac sp_dklen sp_n sp_p sp_r sp_salt app].
+  match goal with |- context [field "kdfparams" ?l] =>
+    change (field "kdfparams" l) with (Some (JObj [ (jkey "dklen", jint 32); (jkey "n", jint n); (jkey "p", jint p);
+                        (jkey "r", jint defaultR); (jkey "salt", jhex salt) ])) end.
+  cbv beta iota.
+  change (field "n" _) with (Some (jint n)).
+  change (field "r" _) with (Some (jint defaultR)).
+  unfold jint. cbv beta iota. rewrite In. change (parse_int64 (print_Z defaultR)) with (Some defaultR).
+  reflexivity.
+Qed.
+
 Lemma doc_id : v3_id doc = Some (uuid_string id).
 Proof.
   rewrite doc_is_top. unfold v3_id, str_field, top.
@@ -260,6 +278,8 @@ Proof.
   destruct (read_is_standard_core P L true _ (pw_of c) (key_of c) mdr Dspec Un) as [wr [R [K [Mw [id' [V' [G Gn]]]]]]].
   - intros i Vi. rewrite Vid in Vi. injection Vi as <-. rewrite (LU id D). discriminate.
   - exact Emd.
+  - rewrite (doc_alloc (pw_of c) (key_of c) salt iv id (n_of c) pDefault md) by (destruct c; reflexivity).
+    destruct c; reflexivity.
   - exists wr. split; [exact R|]. split; [exact K|]. split.
     + unfold KeyPair. cbn [kp_address]. unfold PrivateKey in K. rewrite K. reflexivity.
     + rewrite Vid in V'. injection V' as <-. rewrite (LU id D) in G.
